@@ -32,7 +32,7 @@ from collections.abc import Callable
 from pathlib import Path
 
 from src.core.base import BaseLintContext, BaseLintRule
-from src.core.constants import HEADER_SCAN_LINES, IgnoreDirective, Language
+from src.core.constants import HEADER_SCAN_LINES, IgnoreDirective, Language, split_lines
 from src.core.linter_utils import load_linter_config, path_in_project
 from src.core.types import Severity, Violation
 from src.linter_config.ignore import get_ignore_parser
@@ -208,7 +208,7 @@ class StatelessClassRule(BaseLintRule):  # thailint: ignore[srp,dry]
             return False
 
         # Check first lines for ignore-file directive
-        lines = context.file_content.splitlines()[:HEADER_SCAN_LINES]
+        lines = split_lines(context.file_content)[:HEADER_SCAN_LINES]
         return any(self._is_file_ignore_directive(line) for line in lines)
 
     def _is_file_ignore_directive(self, line: str) -> bool:
@@ -412,7 +412,7 @@ class StatelessClassRule(BaseLintRule):  # thailint: ignore[srp,dry]
         if not context.file_content:
             return None
 
-        lines = context.file_content.splitlines()
+        lines = split_lines(context.file_content)
         if line_num <= 0 or line_num > len(lines):
             return None
 
